@@ -61,6 +61,23 @@ func VerifIngest(rm *RegistrationManager, reg *DecoyRegistration) { rm.ingestReg
 // simulated connection (the package-level client is normally created once,
 // for localhost:6379).
 func VerifSetRedis(c *redis.Client) {
+	once = sync.Once{}
 	once.Do(func() {})
 	client = c
+}
+
+// verifRedisNewClient is what the rewritten initRedisClient calls instead of redis.NewClient
+// (seamgen rule redisnew).
+var verifRedisNewClient = redis.NewClient
+
+// VerifOwnRedis makes the station build its detector client itself (the real getRedisClient /
+// initRedisClient run on first use), through newClient, which can add a dialer into the
+// simulated network to the station's own options.
+func VerifOwnRedis(newClient func(*redis.Options) *redis.Client) {
+	once = sync.Once{}
+	client = nil
+	if newClient == nil {
+		newClient = redis.NewClient
+	}
+	verifRedisNewClient = newClient
 }
